@@ -715,6 +715,96 @@ def _scenarios():
     def _(c):
         p3, g1 = c.Person(3), c.Group(1); p3.delete()
         return lambda: p3.groups.add(g1)
+
+    # ---- second batch: values going to / coming from None, and calls that meet PENDING collection changes ------------------
+    @sc('set', 'optional unique value cleared, then a composite conflict')
+    def _(c):
+        c.Person(1); p2 = c.Person(2)
+        return lambda: p2.set(code=None, a=1, b=1)
+    @sc('set', 'memo emptied, then a unique conflict (passport number)')
+    def _(c):
+        c.Passport(1); pp2 = c.Passport(2)
+        return lambda: pp2.set(memo='', number=101)
+    @sc('set', 'optional unique value cleared, then a collection that cannot be unlinked')
+    def _(c):
+        p7 = c.Person(7)
+        return lambda: p7.set(code=None, notes=[])
+    @sc('set', 'owner of a relation-composite key cleared together with a memo (succeeds unless faulted)')
+    def _(c):
+        t3 = c.Task(3)
+        return lambda: t3.set(memo='x', owner=None)
+    @sc('set', 'pending removal put back by the new collection, then a second collection that cannot be unlinked')
+    def _(c):
+        p1, g1, g2 = c.Person(1), c.Group(1), c.Group(2); p1.groups.remove(g1)
+        return lambda: p1.set(groups=[g1, g2], notes=[])
+    @sc('set', 'removal pending on the reverse side put back, then a second collection that cannot be unlinked')
+    def _(c):
+        p1, g1, g2, g3 = c.Person(1), c.Group(1), c.Group(2), c.Group(3); g1.members.remove(p1)
+        return lambda: p1.set(groups=[g1, g2, g3], notes=[])
+    @sc('set', 'one-to-many item with a pending unlink put back, then a second collection that cannot be unlinked')
+    def _(c):
+        p1, t1, t2 = c.Person(1), c.Task(1), c.Task(2); p1.tasks.remove(t1)
+        return lambda: p1.set(tasks=[t1, t2], notes=[])
+    @sc('set', 'pending addition dropped by the new collection, then a conflicting second collection')
+    def _(c):
+        p2, g2, g3, t1, t3 = c.Person(2), c.Group(2), c.Group(3), c.Task(1), c.Task(3); p2.groups.add(g3)
+        return lambda: p2.set(groups=[g2], tasks=[t1, t3])
+    @sc('assign', 'optional unique value cleared (succeeds unless faulted)')
+    def _(c):
+        p2 = c.Person(2)
+        return lambda: setattr(p2, 'code', None)
+    @sc('assign', 'unique value for a person who had none (succeeds unless faulted)')
+    def _(c):
+        p3 = c.Person(3)
+        return lambda: setattr(p3, 'code', 33)
+    @sc('assign', 'owner of a relation-composite key cleared (succeeds unless faulted)')
+    def _(c):
+        t3 = c.Task(3)
+        return lambda: setattr(t3, 'owner', None)
+    @sc('assign', 'owner given to a task that had none: composite conflict')
+    def _(c):
+        c.Task(1); t9, p1 = c.Task(9), c.Person(1)
+        return lambda: setattr(t9, 'owner', p1)
+    @sc('add', 'many-to-many: a pending removal added back together with a new link (succeeds unless faulted)')
+    def _(c):
+        p1, g1, g3 = c.Person(1), c.Group(1), c.Group(3); p1.groups.remove(g1)
+        return lambda: p1.groups.add([g1, g3])
+    @sc('add', 'many-to-many: removal pending on the reverse side added back with a new link (succeeds unless faulted)')
+    def _(c):
+        p1, g1, g3 = c.Person(1), c.Group(1), c.Group(3); g1.members.remove(p1)
+        return lambda: p1.groups.add([g3, g1])
+    @sc('add', 'one-to-many: an unlinked task added back together with a conflicting one')
+    def _(c):
+        c.Task(2); p1, t1, t9 = c.Person(1), c.Task(1), c.Task(9); p1.tasks.remove(t1)
+        return lambda: p1.tasks.add([t1, t9])
+    @sc('remove', 'many-to-many: a pending addition removed together with a stored link (succeeds unless faulted)')
+    def _(c):
+        p2, g2, g3 = c.Person(2), c.Group(2), c.Group(3); p2.groups.add(g3)
+        return lambda: p2.groups.remove([g3, g2])
+    @sc('remove', 'many-to-many: addition pending on the reverse side removed with a stored link (succeeds unless faulted)')
+    def _(c):
+        p2, g2, g3 = c.Person(2), c.Group(2), c.Group(3); g3.members.add(p2)
+        return lambda: p2.groups.remove([g2, g3])
+    @sc('collset', 'many-to-many: pending removal put back, stored link dropped, new link added (succeeds unless faulted)')
+    def _(c):
+        p1, g1, g3 = c.Person(1), c.Group(1), c.Group(3); p1.groups.remove(g1)
+        return lambda: setattr(p1, 'groups', [g1, g3])
+    @sc('collset', 'many-to-many: removal pending on the reverse side put back (succeeds unless faulted)')
+    def _(c):
+        p1, g1, g3 = c.Person(1), c.Group(1), c.Group(3); g1.members.remove(p1)
+        return lambda: setattr(p1, 'groups', [g3, g1])
+    @sc('collset', 'one-to-many: unlinked task put back next to a conflicting one')
+    def _(c):
+        c.Task(2); p1, t1, t9 = c.Person(1), c.Task(1), c.Task(9); p1.tasks.remove(t1)
+        return lambda: setattr(p1, 'tasks', [t1, t9])
+    @sc('delete', 'refused by a seal two levels down, after a pending removal and a pending addition of group links')
+    def _(c):
+        p4, g1, g2 = c.Person(4), c.Group(1), c.Group(2); p4.groups.remove(g1); p4.groups.add(g2)
+        return lambda: p4.delete()
+    @sc('delete', 'refused by a note, with a link removal pending on the reverse side')
+    def _(c):
+        p6, g1 = c.Person(6), c.Group(1); g1.members.remove(p6)
+        return lambda: p6.delete()
     return S
 
 
@@ -1218,7 +1308,7 @@ def _m(fn):
 
 
 HARNESSES = {'create_a': ('create', False, (0, 2)), 'create_b': ('create', False, (1, 2)), 'assign': ('assign', False, None),
-             'set_call': ('set', False, None), 'one_to_one': ('o2o', False, None), 'coll_add': ('add', False, None),
+             'set_call': ('set', False, (0, 2)), 'set_call_b': ('set', False, (1, 2)), 'one_to_one': ('o2o', False, None), 'coll_add': ('add', False, None),
              'coll_remove': ('remove', False, None), 'coll_set': ('collset', False, None),
              'delete_a': ('delete', False, (0, 2)), 'delete_b': ('delete', False, (1, 2)), 'mixed': ('mixed', False, None),
              'modified_flag_assign': ('assign', True, None), 'modified_flag_delete': ('delete', True, None)}
@@ -1254,6 +1344,14 @@ def set_call(s: int, k: int, mode: int, order: bool, follow: int) -> bool:
     post: _
     """
     return ok(_harness('set_call', s, k, mode, order, follow))
+
+
+def set_call_b(s: int, k: int, mode: int, order: bool, follow: int) -> bool:
+    """
+    pre: 0 <= s < _n('set_call_b') and 0 <= k <= KCAP and 0 <= mode < _m('set_call_b') and 0 <= follow < N_FOLLOW
+    post: _
+    """
+    return ok(_harness('set_call_b', s, k, mode, order, follow))
 
 
 def one_to_one(s: int, k: int, mode: int, order: bool, follow: int) -> bool:
